@@ -11,6 +11,8 @@ def _ops(rng, d, others, check, note):
     out = [("dagger", lambda: d[::-1]), ("dagger2", lambda: d[::-1][::-1]),
            ("slice", lambda: d[rng.randint(0, n):]), ("slice2", lambda: d[:rng.randint(0, n)]),
            ("revslice", lambda: d[rng.randint(0, max(n - 1, 0)):rng.randint(-1, n) if n else None:-1]),
+           ("stride2", lambda: d[::2]), ("stride3", lambda: d[rng.randint(0, n)::3]),
+           ("stride-2", lambda: d[::-2]), ("stride2-bounded", lambda: d[rng.randint(0, n):rng.randint(0, n):2]),
            ("tensor", lambda: d @ rng.choice(others)), ("tensor2", lambda: rng.choice(others) @ d)]
     if n:
         out.append(("getitem", lambda: d[rng.randrange(n)]))
@@ -71,7 +73,12 @@ def tour(rng, n_cases, check, note):
     pool = [gates.H, gates.X, gates.Y, gates.Z, gates.S, gates.T, gates.CX, gates.CZ, gates.SWAP,
             gates.Rx(0.25), gates.Rz(0.5), gates.CRz(0.125), gates.Ket(0), gates.Ket(1, 0), gates.Bra(1),
             gates.Bits(1), circuit.Measure(), circuit.Discard(), circuit.Encode(), gates.Copy(), gates.Match(),
-            gates.scalar(0.5), gates.sqrt(2)]
+            gates.scalar(0.5), gates.sqrt(2),
+            circuit.Measure(override_bits=True), circuit.Measure(destructive=False), circuit.Measure(2),
+            circuit.Measure(destructive=False, override_bits=True),
+            circuit.Encode(reset_bits=True), circuit.Encode(constructive=False),
+            circuit.Encode(constructive=False, reset_bits=True), circuit.MixedState(), circuit.Discard(circuit.bit),
+            circuit.Discard(circuit.qubit @ circuit.bit)]
 
     def cdiag():
         d = circuit.Id(circuit.qubit ** rng.randint(0, 2) @ circuit.bit ** rng.randint(0, 1))
